@@ -10,29 +10,56 @@ import (
 
 var c12ErrSource = errors.New("random source failed")
 
+// scripted random source: delivers arbitrary bytes; at call index failAt it misbehaves:
+//   mode 1: returns an error; mode 2: delivers half of the request, then EOF;
+//   mode 3: delivers half of the request with a nil error (a legal short read) and carries on.
+// One-byte requests (randutil.MaybeReadByte) are served separately and not counted; the source ends
+// after `limit` calls.
 type c12Reader struct {
 	calls  int
 	failAt int
 	mode   int
-	given  [][]byte
+	limit  int
+	stream []byte
+	dead   bool
 }
 
 func (r *c12Reader) Read(p []byte) (int, error) {
-	r.calls++
-	if r.calls == r.failAt {
-		if r.mode == 1 {
-			return 0, c12ErrSource
-		}
-		half := len(p) / 2
-		copy(p, verifBytes("partial", half))
-		return half, io.EOF
+	if len(p) == 1 {
+		p[0] = verifU8("maybebyte")
+		return 1, nil
 	}
-	if r.failAt > 0 && r.calls > r.failAt {
+	if r.dead {
 		return 0, io.EOF
+	}
+	r.calls++
+	if r.limit > 0 && r.calls > r.limit {
+		r.dead = true
+		return 0, io.EOF
+	}
+	if r.calls == r.failAt {
+		switch r.mode {
+		case 1:
+			r.dead = true
+			return 0, c12ErrSource
+		case 2:
+			half := len(p) / 2
+			b := verifBytes("partial", half)
+			copy(p, b)
+			r.stream = append(r.stream, b...)
+			r.dead = true
+			return half, io.EOF
+		case 3:
+			half := len(p) / 2
+			b := verifBytes("short", half)
+			copy(p, b)
+			r.stream = append(r.stream, b...)
+			return half, nil
+		}
 	}
 	b := verifBytes("rnd", len(p))
 	copy(p, b)
-	r.given = append(r.given, b)
+	r.stream = append(r.stream, b...)
 	return len(p), nil
 }
 
@@ -61,31 +88,26 @@ func c12Tweak(b []byte) []byte {
 }
 
 func verifH_c12_ecdh_genkey() {
-	failAt, mode := verifParam("failat"), verifParam("mode")
-	rd := &c12Reader{failAt: failAt, mode: mode}
+	rd := &c12Reader{failAt: verifParam("failat"), mode: verifParam("mode"), limit: 4}
 	k, err := sm2P256.GenerateKey(rd)
-	// MaybeReadByte may have consumed one 1-byte read first: drop it from the block list
-	blocks := rd.given
-	if len(blocks) > 0 && len(blocks[0]) == 1 {
-		blocks = blocks[1:]
-	}
+	nblk := len(rd.stream) / 32
+	blk := func(j int) []byte { return c12Tweak(rd.stream[32*j : 32*j+32]) }
 	if err != nil {
 		verifAssert(k == nil, "no key on failure")
-		verifAssert(failAt > 0 && rd.calls >= failAt, "an error only when the source failed")
-		for _, b := range blocks {
-			verifAssert(!c12Valid(c12Tweak(b)), "every candidate before the failure was out of range")
+		verifAssert(rd.dead, "an error only when the source failed")
+		for j := 0; j < nblk; j++ {
+			verifAssert(!c12Valid(blk(j)), "every complete candidate before the failure was out of range")
 		}
 		verifReach("failed")
 		verifReach("end")
 		return
 	}
-	n := len(blocks)
-	verifAssert(n >= 1 && k != nil, "a key and at least one block")
-	last := c12Tweak(blocks[n-1])
+	verifAssert(nblk >= 1 && k != nil && len(rd.stream) == 32*nblk, "a key, from whole blocks of the stream (short reads are completed, never padded)")
+	last := blk(nblk - 1)
 	verifAssert(verifEqBytes(k.privateKey, last), "the key is the last block read, byte 1 XOR 0x42, nothing else changed")
 	verifAssert(c12Valid(last), "and lies in [1, n-2]")
-	for _, b := range blocks[:n-1] {
-		verifAssert(!c12Valid(c12Tweak(b)), "earlier candidates were out of range")
+	for j := 0; j < nblk-1; j++ {
+		verifAssert(!c12Valid(blk(j)), "earlier candidates were out of range")
 	}
 	verifReach("ok")
 	verifReach("end")
